@@ -60,36 +60,30 @@ func runC36(c *core.Ctx) {
 	}
 	isAddr := func(v ssa.Value) bool { return derivesFromCall(v, gsa, 8) }
 	var relayerCall *ssa.Call
-	relayerGuard := eng.NamedGuard{Name: "len(relayer record of a signing address) > 0", G: func(cd ir.Cond) (bool, bool) {
-		b, ok := cd.V.(*ssa.BinOp)
-		if !ok || b.Op != token.GTR {
-			return false, false
-		}
-		k, okk := ir.ConstInt(b.Y)
-		if !okk || k != 0 {
-			return false, false
-		}
-		ln, ok := b.X.(*ssa.Call)
+	relayerGuard := relGuard("len(relayer record of a signing address) > 0", func(v ssa.Value) bool {
+		ln, ok := ir.Strip(v).(*ssa.Call)
 		if !ok {
-			return false, false
+			return false
 		}
 		if bi, isB := ln.Common().Value.(*ssa.Builtin); !isB || bi.Name() != "len" {
-			return false, false
+			return false
 		}
 		cl, idx := ir.CallOf(ln.Common().Args[0])
 		if cl == nil || idx != 0 || !ir.CalleeIs(cl, gsi) {
-			return false, false
+			return false
 		}
 		relayerCall = cl
-		return true, true
-	}}
+		return true
+	}, isConstInt(0), token.GTR)
 	permitted := eng.NamedGuard{Name: "permittedAddrMap[signing address] == true", G: func(cd ir.Cond) (bool, bool) {
-		ex, ok := cd.V.(*ssa.Extract)
-		if !ok || ex.Index != 0 {
-			return false, false
+		// the stored boolean: `val, ok := m[a]; val && ok` or plainly `m[a]` (false when absent)
+		var lk *ssa.Lookup
+		if ex, ok := cd.V.(*ssa.Extract); ok && ex.Index == 0 {
+			lk, _ = ex.Tuple.(*ssa.Lookup)
+		} else if l, ok := cd.V.(*ssa.Lookup); ok && !l.CommaOk {
+			lk = l
 		}
-		lk, ok := ex.Tuple.(*ssa.Lookup)
-		if !ok || globalName(lk.X) != "permittedAddrMap" || !isAddr(lk.Index) {
+		if lk == nil || globalName(lk.X) != "permittedAddrMap" || !isAddr(lk.Index) {
 			return false, false
 		}
 		return true, true
@@ -100,6 +94,7 @@ func runC36(c *core.Ctx) {
 		c.Broken("C36.relayer-key", fn, "GetStorageItem(relayer key)", c.P.Rel(fn.Pos()), "call not found")
 		return
 	}
+	defer bindHelperOf(fn, relayerCall)() // the read may sit in a per-address helper
 	// contract + key shape
 	okContract := globalName(relayerCall.Common().Args[0]) == "RelayerManagerContractAddress"
 	c.Decide(okContract, "C36.relayer-key", fn, "record read from the relayer manager contract", c.P.Rel(relayerCall.Pos()), "")
